@@ -49,6 +49,7 @@ pub fn check_attr_step<const N: usize>(raw: &[u8], fixed_code: u8) -> Outcome {
     let mut html = html;
     let mut check = check;
     let mut nkeys = nkeys;
+    require!(len <= N);
     if fixed_code == 4 {
         // canonical family of SkipEqValue states, reachable by construction through the public API:
         // `Attributes::html("K K =...", 0)` yields Empty(K), then Duplicated for the second K and stops at its `=`
@@ -255,6 +256,7 @@ pub fn check_attr_step<const N: usize>(raw: &[u8], fixed_code: u8) -> Outcome {
         witness!(matches!(want, Item::Duplicated(_, _)), "duplicate reported");
         witness!(code == 3 && matches!(want, Item::Attr { .. }), "attribute after a skipped duplicate");
         witness!(code == 2 && matches!(want, Item::Attr { .. }), "attribute after a skipped unquoted value");
+        witness!(code == 2 && !matches!(want, Item::None), "another item after a skipped unquoted value");
         witness!(matches!(want, Item::Attr { has_value: true, .. }), "attribute with value");
         core::mem::forget(got);
         core::mem::forget(it);
